@@ -140,6 +140,9 @@ func (s *scriptGM) run(how string, cert *gmtls.Certificate) string {
 	rand.Read(s.cr)
 	hello := append([]byte{1, 1}, s.cr...)
 	hello = append(hello, 0, 0, 2, 0xe0, 0x13, 1, 0)
+	if strings.HasPrefix(how, "npn_") {
+		hello = append(hello, 0, 4, 0x33, 0x74, 0, 0) // extensions: next_protocol_negotiation, empty
+	}
 	if err := s.send(hsMsg(1, hello)); err != nil {
 		return "write: " + err.Error()
 	}
@@ -247,6 +250,14 @@ func (s *scriptGM) run(how string, cert *gmtls.Certificate) string {
 		s.rec(20, []byte{1})
 		s.encrypting = true
 		s.rec(23, []byte("early"))
+		s.rec(22, fin())
+	case "npn_unsolicited":
+		// the hello offered next-protocol negotiation, the server (no NextProtos) did not take it up; the client sends its
+		// NextProtocol message all the same, hashes it, and then a Finished that is correct for that transcript
+		s.rec(20, []byte{1})
+		s.encrypting = true
+		np := append([]byte{2, 'h', '2', 28}, make([]byte, 28)...)
+		s.send(hsMsg(67, np))
 		s.rec(22, fin())
 	case "fin_trailing1", "fin_trailing20", "fin_short":
 		// the right verify_data followed by further bytes (handshake length 13 / 32), or only its first 11 bytes
